@@ -842,7 +842,11 @@ func (o *ImmutableArray) BinaryOp(op token.Token, rhs Object) (Object, error) {
 	if rhs, ok := rhs.(*ImmutableArray); ok {
 		switch op {
 		case token.Add:
-			return &Array{Value: append(o.Value, rhs.Value...)}, nil
+			// copy: the resulting array is mutable and must not share
+			// storage with the immutable array
+			v := make([]Object, 0, len(o.Value)+len(rhs.Value))
+			v = append(v, o.Value...)
+			return &Array{Value: append(v, rhs.Value...)}, nil
 		}
 	}
 	return nil, ErrInvalidOperator
